@@ -175,6 +175,16 @@ int Simulate6502::run(int max_cycles, int step)
     int cycles_min, cycles_max;
     int opcode = ram_read8(pc);
 
+    // the instruction may overwrite itself, so get its length first
+    int length = disasm_6502(
+      memory,
+      pc,
+      instruction,
+      sizeof(instruction),
+      0,
+      &cycles_min,
+      &cycles_max);
+
     int ret = operand_exe(opcode);
 
     // stop simulation on BRK instruction
@@ -184,15 +194,7 @@ int Simulate6502::run(int max_cycles, int step)
     }
 
     // only increment if reg_pc not touched
-    if (ret == 0)
-      reg_pc += disasm_6502(
-        memory,
-        pc,
-        instruction,
-        sizeof(instruction),
-        0,
-        &cycles_min,
-        &cycles_max);
+    if (ret == 0) { reg_pc += length; }
 
     if (show == true)
     {
